@@ -47,6 +47,22 @@ Fixpoint forallb2 {A B} (f : A -> B -> bool) (l1 : list A) (l2 : list B) : bool 
   | _, _ => false
   end.
 
+(* ---------- one recorded step: a single operation, or UnmarshalJSON of a document into the container in its
+   current (used) state.  The code's UnmarshalJSON decodes the document, calls Clear() and then Put / Add every decoded
+   binding / element (hashmap, linkedhashmap in document order, the sets, the bidi-maps): on the model and on the
+   reference alike it IS the operation list Clear; Put ... / Clear; Add ..., so the theorems (stated for every operation
+   list) cover it.  The harness writes documents with distinct keys (and, for bidi-maps, distinct values), so the
+   order in which a Go map of the decoded members is ranged over does not matter. ---------- *)
+Inductive mact := MOp (o : mop Z Z) | MLoad (doc : list (Z * Z)).
+Definition mact_ops (s : mact) : list (mop Z Z) :=
+  match s with MOp o => [o] | MLoad d => MClear :: map (fun kv => MPut (fst kv) (snd kv)) d end.
+Inductive sact := SOp (o : sop Z) | SLoad (doc : list Z).
+Definition sact_ops (s : sact) : list (sop Z) := match s with SOp o => [o] | SLoad d => [SClear; SAdd d] end.
+Inductive bact := BOp (o : bop Z Z) | BLoad (doc : list (Z * Z)).
+Definition bact_ops (s : bact) : list (bop Z Z) :=
+  match s with BOp o => [o] | BLoad d => BClear :: map (fun kv => BPut (fst kv) (snd kv)) d end.
+Definition after {S O X} (step : S -> O -> S * X) (s : S) (ops : list O) : S := fst (run step s ops).
+
 (* ---------- maps ---------- *)
 Record msnap := MS { m_panic : bool; m_size : nat; m_empty : bool; m_keys : list Z; m_vals : list Z;
                      m_gets : list (option Z);     (* Get k for every k of the universe *)
@@ -77,19 +93,19 @@ Definition hm_model := hm_step Z.eqb (@ins_front Z Z).
 Definition lhm_model := lhm_step Z.eqb (@ins_front Z Z) 0.
 Definition omap_spec := omap_step (V := Z) Z.eqb.
 
-Definition hm_check (univ : list Z) (st : list (Z * Z) * list (Z * Z)) (x : mop Z Z * msnap) :=
+Definition hm_check (univ : list Z) (st : list (Z * Z) * list (Z * Z)) (x : mact * msnap) :=
   let '(m, o) := st in
   let '(op, sn) := x in
-  let m' := fst (hm_model m op) in
-  let o' := fst (omap_spec o op) in
+  let m' := after hm_model m (mact_ops op) in
+  let o' := after omap_spec o (mact_ops op) in
   ((m', o'), kind_of (mobs_ok hm_model false m' univ sn)
                      (mobs_ok omap_spec false o' univ sn && nodupZ (m_keys sn))).
 
-Definition lhm_check (univ : list Z) (st : lhm Z Z * list (Z * Z)) (x : mop Z Z * msnap) :=
+Definition lhm_check (univ : list Z) (st : lhm Z Z * list (Z * Z)) (x : mact * msnap) :=
   let '(m, o) := st in
   let '(op, sn) := x in
-  let m' := fst (lhm_model m op) in
-  let o' := fst (omap_spec o op) in
+  let m' := after lhm_model m (mact_ops op) in
+  let o' := after omap_spec o (mact_ops op) in
   ((m', o'), kind_of (mobs_ok lhm_model true m' univ sn
                       && perm_eqb (m_table sn) (gkeys (table m')) && zlist_eqb (m_rev sn) (rev (ordering m')))
                      (mobs_ok omap_spec true o' univ sn
@@ -127,27 +143,27 @@ Fixpoint sorted_by (cmp : Z -> Z -> Z) (l : list Z) : bool :=
 Definition ls_model := ls_step Z.eqb (@ins_front Z unit).
 Definition oset_spec := oset_step Z.eqb.
 
-Definition gs_check (univ : list Z) (st : list (Z * unit) * list Z) (x : sop Z * ssnap) :=
+Definition gs_check (univ : list Z) (st : list (Z * unit) * list Z) (x : sact * ssnap) :=
   let '(m, o) := st in
   let '(op, sn) := x in
-  let m' := fst (hs_model m op) in
-  let o' := fst (oset_spec o op) in
+  let m' := after hs_model m (sact_ops op) in
+  let o' := after oset_spec o (sact_ops op) in
   ((m', o'), kind_of (sobs_ok hs_model false m' univ sn)
                      (sobs_ok oset_spec false o' univ sn && nodupZ (s_values sn))).
 
-Definition ts_check (c : cmpsel) (univ : list Z) (st : ts_state (K:=Z) * list Z) (x : sop Z * ssnap) :=
+Definition ts_check (c : cmpsel) (univ : list Z) (st : ts_state (K:=Z) * list Z) (x : sact * ssnap) :=
   let '(m, o) := st in
   let '(op, sn) := x in
-  let m' := fst (ts_model c m op) in
-  let o' := fst (oset_spec o op) in
+  let m' := after (ts_model c) m (sact_ops op) in
+  let o' := after oset_spec o (sact_ops op) in
   ((m', o'), kind_of (cmpsel_ok c && sobs_ok (ts_model c) true m' univ sn)
                      (sobs_ok oset_spec false o' univ sn && nodupZ (s_values sn) && sorted_by (cmp_of c) (s_values sn))).
 
-Definition ls_check (univ : list Z) (st : lset Z * list Z) (x : sop Z * ssnap) :=
+Definition ls_check (univ : list Z) (st : lset Z * list Z) (x : sact * ssnap) :=
   let '(m, o) := st in
   let '(op, sn) := x in
-  let m' := fst (ls_model m op) in
-  let o' := fst (oset_spec o op) in
+  let m' := after ls_model m (sact_ops op) in
+  let o' := after oset_spec o (sact_ops op) in
   ((m', o'), kind_of (sobs_ok ls_model true m' univ sn
                       && perm_eqb (s_table sn) (gkeys (stable m')) && zlist_eqb (s_rev sn) (rev (sordering m')))
                      (sobs_ok oset_spec true o' univ sn
@@ -204,19 +220,19 @@ Definition hb_model := hb_step Z.eqb Z.eqb (@ins_front Z Z) (@ins_front Z Z).
 Definition tb_model (ck cv : cmpsel) := rb_bidi_step (cmp_of ck) (cmp_of cv) 0 0.       (* two red-black trees, C01/Containers.v *)
 Definition bij_spec := bij_step Z.eqb Z.eqb.
 
-Definition hb_check (ku vu : list Z) (st : bidi Z Z * list (Z * Z)) (x : bop Z Z * bsnap) :=
+Definition hb_check (ku vu : list Z) (st : bidi Z Z * list (Z * Z)) (x : bact * bsnap) :=
   let '(m, o) := st in
   let '(op, sn) := x in
-  let m' := fst (hb_model m op) in
-  let o' := fst (bij_spec o op) in
+  let m' := after hb_model m (bact_ops op) in
+  let o' := after bij_spec o (bact_ops op) in
   ((m', o'), kind_of (bobs_ok hb_model false m' ku vu sn)
                      (bobs_ok bij_spec false o' ku vu sn && bij_obs_ok ku vu sn)).
 
-Definition tb_check (ck cv : cmpsel) (ku vu : list Z) (st : T1.tb_state Z Z * list (Z * Z)) (x : bop Z Z * bsnap) :=
+Definition tb_check (ck cv : cmpsel) (ku vu : list Z) (st : T1.tb_state Z Z * list (Z * Z)) (x : bact * bsnap) :=
   let '(m, o) := st in
   let '(op, sn) := x in
-  let m' := fst (tb_model ck cv m op) in
-  let o' := fst (bij_spec o op) in
+  let m' := after (tb_model ck cv) m (bact_ops op) in
+  let o' := after bij_spec o (bact_ops op) in
   ((m', o'), kind_of (cmpsel_ok ck && cmpsel_ok cv && bobs_ok (tb_model ck cv) true m' ku vu sn)
                      (bobs_ok bij_spec false o' ku vu sn && bij_obs_ok ku vu sn
                       && sorted_by (cmp_of ck) (b_keys sn) && sorted_by (cmp_of cv) (b_vals sn))).
@@ -283,9 +299,9 @@ Definition alg_model (k : skind) (op : aop) (aops bops : list (sop Z)) (sn : asn
 
 (* ---------- cases ---------- *)
 Inductive case :=
-| CMap (k : mkind) (univ : list Z) (steps : list (mop Z Z * msnap))
-| CSet (k : skind) (univ : list Z) (steps : list (sop Z * ssnap))
-| CBidi (k : bkind) (ku vu : list Z) (steps : list (bop Z Z * bsnap))
+| CMap (k : mkind) (univ : list Z) (steps : list (mact * msnap))
+| CSet (k : skind) (univ : list Z) (steps : list (sact * ssnap))
+| CBidi (k : bkind) (ku vu : list Z) (steps : list (bact * bsnap))
 | CAlg (k : skind) (op : aop) (aops bops : list (sop Z)) (sn : asnap).
 
 Definition check_case (c : case) : nat :=
